@@ -56,7 +56,8 @@ func (w *World) globalFact(key string, t types.Type) (AV, bool) {
 			fields := map[string]AV{}
 			for i := 0; i < stt.NumFields(); i++ {
 				f := stt.Field(i)
-				if v, ok := w.globalFact(key+"."+f.Name(), f.Type()); ok {
+				// (a field's own key carries no dereference mark: "*global:g" is the variable, "global:g.f" its field)
+				if v, ok := w.globalFact(strings.TrimPrefix(key, "*")+"."+f.Name(), f.Type()); ok {
 					fields[f.Name()] = v
 				} else {
 					return nil, false
